@@ -53,7 +53,7 @@ def suffix_spec(q, cutoff, n, stop):
     candidates are n and every i such that all running sums S(j) = sum_{k>=j}(cutoff - q[k]), i<=j<n, are >= 0;
     among them the one with maximal S, the largest index (shortest suffix) on ties."""
     S = [None] * (n + 1)
-    S[n] = z3.IntVal(0)
+    S[n] = V.ival(0)
     for i in range(n - 1, -1, -1):
         S[i] = S[i + 1] + (cutoff - q[i])
     valid = [None] * (n + 1)
@@ -80,8 +80,8 @@ def prefix_spec(q, cutoff, n, start):
 
 
 def combined_spec(q, cf, cb, n, start, stop):
-    s5 = z3.Int("spec_start")
-    s3 = z3.Int("spec_stop")
+    s5 = V.ivar("spec_start")
+    s3 = V.ivar("spec_stop")
     return s5, s3, z3.And(prefix_spec(q, cf, n, s5), suffix_spec(q, cb, n, s3),
                           z3.If(s5 >= s3, z3.And(start == 0, stop == 0), z3.And(start == s5, stop == s3)))
 
@@ -201,7 +201,7 @@ def path_nextseq(J, ctx, n, base):
     mk = _cex("nextseq", sequence=bases, qualities=quals, cutoff=c, base=base)
     J.safety(ctx, mk)
     q = [z3.If(zint(b) == ord("G"), zint(c) - 1, zint(x) - base) for x, b in zip(quals.chars, bases.chars)]
-    s3 = z3.Int("spec_stop")
+    s3 = V.ivar("spec_stop")
     ctx.assume(suffix_spec(q, zint(c), n, s3))
     J.claim(ctx, zint(stop) == s3, "nextseq_trim_index differs from the definition (G counts as cutoff-1)", mk)
     if n and J.witness(ctx, z3.And(zint(stop) < n, zint(bases.chars[-1]) == ord("G"))):
